@@ -76,7 +76,7 @@ def rand_prop(rng, cnt, depth, nested=False):
     if k == "int":
         return {"p": "num", "v": rng.choice([0, 1, -3, 42, 10**15, 2**53 - 1, 2**53, 2**53 + 1, -2**60, 10**30, -1])}
     if k == "float":
-        return {"p": "num", "v": rng.choice([2.0, -0.5, 1e21, 3.25])}
+        return {"p": "num", "v": rng.choice([2.0, -0.5, 1e21, 3.25, 0.1 + 0.2, 1 / 3, 1e-7, 2.0 ** 53 + 2, 123456789.123456789, -1e-320])}
     if k == "str":
         return {"p": "str", "v": rng.choice(STRS)}
     if k in ("list", "tuple"):
